@@ -362,10 +362,33 @@ func (s *session) SetID(newID string) {
 	}
 	s.socket.SetID(newID)
 	hub := s.peer.sessHub
+	if !s.indexable() {
+		// a session that has ended stays out of the index
+		hub.deleteIf(oldID, s)
+		Tracef("session changes id: %s -> %s", oldID, newID)
+		return
+	}
 	hub.set(s)
 	verifGate("setid.betweenSetAndDelete", s)
 	hub.deleteIf(oldID, s)
+	if !s.indexable() {
+		// closed meanwhile: its close looked for the old id
+		hub.deleteIf(newID, s)
+	}
 	Tracef("session changes id: %s -> %s", oldID, newID)
+}
+
+// indexable reports whether the session belongs in the peer's session index:
+// it is being set up, established, or a client session that may still redial.
+func (s *session) indexable() bool {
+	switch s.getStatus() {
+	case statusPreparing, statusOk:
+		return true
+	case statusActiveClosing, statusActiveClosed:
+		return false
+	default:
+		return s.redialForClientLocked != nil
+	}
 }
 
 // ControlFD invokes f on the underlying connection's file
